@@ -61,7 +61,7 @@ theorem exit_plane_result (step : W → S → W) (detect : W → M) (w0 : W) (p 
       rcases getLastD_natPlanes_single ent ps hone with ⟨_, hps, hl⟩ | ⟨he', _⟩
       · have hzero : slices.length = 0 := by rw [hl, hn] at hlast; omega
         have : slices = [] := List.eq_nil_of_length_eq_zero hzero
-        simp [Out.get, measurementIndex, hens, hsingle, this]
+        simp [Out.get, measurementIndex, iNoEns, hens, hsingle, this]
       · rw [he] at he'; cases he'
     · intro j hj
       rcases getLastD_natPlanes_single ent ps hone with ⟨_, hps, _⟩ | ⟨_, q, hps, hl⟩
@@ -70,7 +70,7 @@ theorem exit_plane_result (step : W → S → W) (detect : W → M) (w0 : W) (p 
         have hj0 : j = 0 := by simpa using hj
         subst hj0
         have hq : q + 1 = slices.length := by rw [hl, hn] at hlast; omega
-        simp [Out.get, measurementIndex, hens, hsingle, waveAt, hq]
+        simp [Out.get, measurementIndex, iNoEns, hens, hsingle, waveAt, hq]
   · rw [if_neg hfin]
     refine ⟨_, rfl, ?_, ?_⟩
     · intro he
@@ -125,7 +125,7 @@ measurement index has as many components as the allocated ensemble shape, each b
 configuration, then exit plane — is the order of the allocated axes). -/
 theorem exit_index_in_range (p : Pot S) (c e : Nat) (hc : c < p.configs.length) (he : e < p.planes.length) :
     List.Forall₂ (· < ·) (measurementIndex p c e) (extraShape p) := by
-  unfold measurementIndex extraShape iSinglePlane sPlaneAxis
+  unfold measurementIndex extraShape iSinglePlane sPlaneAxis iNoEns
   have hpos : 0 < p.planes.length := by omega
   by_cases h1 : p.planes.length = 1
   · have hnot : ¬ ((p.planes.length : Int) > 1) := by omega
@@ -134,6 +134,120 @@ theorem exit_index_in_range (p : Pot S) (c e : Nat) (hc : c < p.configs.length) 
   · have hgt : ((p.planes.length : Int) > 1) := by omega
     have hne : ¬ ((p.planes.length : Int) = 1) := by omega
     cases p.ensAxis <;> simp [hne, hgt, hc, he]
+
+/-! ### explicit exit-plane tuples: accepted ⇒ documented form -/
+
+theorem notIncreasing_false_iff (l : List Int) : notIncreasing l = false ↔ l.Pairwise (· < ·) := by
+  induction l with
+  | nil => simp [notIncreasing]
+  | cons a rest ih =>
+    cases rest with
+    | nil => simp [notIncreasing]
+    | cons b rest' =>
+      simp only [notIncreasing, Bool.or_eq_false_iff, decide_eq_false_iff_not, not_le, ih]
+      constructor
+      · rintro ⟨hab, hp⟩
+        rw [List.pairwise_cons]
+        refine ⟨?_, hp⟩
+        intro c hc
+        rcases List.mem_cons.mp hc with rfl | hc'
+        · exact hab
+        · exact lt_trans hab ((List.pairwise_cons.mp hp).1 c hc')
+      · intro h
+        exact ⟨(List.pairwise_cons.mp h).1 b (by simp), (List.pairwise_cons.mp h).2⟩
+
+/-- a strictly increasing integer list with first element ≥ −1 is an optional −1 followed by natural numbers -/
+theorem documented_form_of_sorted (l : List Int) (hs : l.Pairwise (· < ·)) (hlo : ∀ x ∈ l, -1 ≤ x) :
+    ∃ ent ps, l = natPlanes ent ps ∧ ps.Pairwise (· < ·) := by
+  have key : ∀ m : List Int, m.Pairwise (· < ·) → (∀ x ∈ m, 0 ≤ x) → ∃ ps : List Nat, m = castList ps ∧ ps.Pairwise (· < ·) := by
+    intro m
+    induction m with
+    | nil => intro _ _; exact ⟨[], rfl, List.Pairwise.nil⟩
+    | cons a m ih =>
+      intro hp hnn
+      obtain ⟨ps, rfl, hps⟩ := ih (List.pairwise_cons.mp hp).2 (fun x hx => hnn x (by simp [hx]))
+      have ha : 0 ≤ a := hnn a (by simp)
+      refine ⟨a.toNat :: ps, ?_, ?_⟩
+      · simp only [castList, List.map_cons]; congr 1
+        simp only [Int.ofNat_eq_natCast]; omega
+      · rw [List.pairwise_cons]
+        refine ⟨?_, hps⟩
+        intro q hq
+        have := (List.pairwise_cons.mp hp).1 (Int.ofNat q) (List.mem_map.mpr ⟨q, hq, rfl⟩)
+        simp only [Int.ofNat_eq_natCast] at this; omega
+  cases l with
+  | nil => exact ⟨false, [], rfl, List.Pairwise.nil⟩
+  | cons a rest =>
+    by_cases ha : a = -1
+    · subst ha
+      have hrest : ∀ x ∈ rest, 0 ≤ x := fun x hx => by
+        have := (List.pairwise_cons.mp hs).1 x hx; omega
+      obtain ⟨ps, rfl, hps⟩ := key rest (List.pairwise_cons.mp hs).2 hrest
+      exact ⟨true, ps, rfl, hps⟩
+    · have hall : ∀ x ∈ a :: rest, 0 ≤ x := by
+        intro x hx
+        rcases List.mem_cons.mp hx with rfl | hx'
+        · have := hlo x (by simp); omega
+        · have h1 := (List.pairwise_cons.mp hs).1 x hx'
+          have := hlo a (by simp); omega
+      obtain ⟨ps, hps, hsorted⟩ := key (a :: rest) hs hall
+      exact ⟨false, ps, by simpa [natPlanes] using hps, hsorted⟩
+
+
+theorem headD_le_of_sorted (l : List Int) (hs : l.Pairwise (· < ·)) : ∀ x ∈ l, l.headD 0 ≤ x := by
+  cases l with
+  | nil => simp
+  | cons a rest =>
+    intro x hx
+    rcases List.mem_cons.mp hx with rfl | hx'
+    · simp
+    · exact le_of_lt ((List.pairwise_cons.mp hs).1 x hx')
+
+theorem le_getLastD_of_sorted (l : List Int) (hs : l.Pairwise (· < ·)) : ∀ x ∈ l, x ≤ l.getLastD 0 := by
+  induction l with
+  | nil => simp
+  | cons a rest ih =>
+    intro x hx
+    cases rest with
+    | nil => simp at hx; subst hx; simp
+    | cons b rest' =>
+      have hrest := ih (List.pairwise_cons.mp hs).2
+      have hlast : (a :: b :: rest').getLastD 0 = (b :: rest').getLastD 0 := by simp [List.getLastD]
+      rw [hlast]
+      rcases List.mem_cons.mp hx with rfl | hx'
+      · exact le_trans (le_of_lt ((List.pairwise_cons.mp hs).1 b (by simp))) (hrest b (by simp))
+      · exact hrest x hx'
+
+/-- **Every explicit exit-plane tuple that `_validate_exit_planes` accepts has the documented form** (optional entrance
+plane −1, then strictly increasing slice indices inside the potential) — so `exit_plane_result`, `last_plane_is_full`,
+`thickness_axis_eq_prefix_sums` … cover every accepted explicit tuple; every other tuple is rejected with a ValueError. -/
+theorem accepted_tuple_documented_form (l : List Int) (n : Nat) (hne : l ≠ []) :
+    (validateExitPlanes (.tuple l) (n : Int) = .error "value_error") ∨
+    (validateExitPlanes (.tuple l) (n : Int) = .ok l ∧
+      ∃ ent ps, l = natPlanes ent ps ∧ ps.Pairwise (· < ·) ∧ (∀ q ∈ ps, q < n) ∧ (ent = true ∨ ps ≠ [])) := by
+  unfold validateExitPlanes
+  by_cases hrej : tupleRejected l (n : Int) = true
+  · left; simp [hrej]
+  · right
+    have hrej' : tupleRejected l (n : Int) = false := by simpa using hrej
+    refine ⟨by simp [hrej'], ?_⟩
+    have hlen : 0 < l.length := List.length_pos_of_ne_nil hne
+    simp only [tupleRejected, Bool.or_eq_false_iff, Bool.and_eq_false_iff, decide_eq_false_iff_not, not_lt, not_le,
+      hlen, not_true_eq_false, false_or] at hrej'
+    obtain ⟨hinc, hhead, hlast⟩ := hrej'
+    have hs := (notIncreasing_false_iff l).mp hinc
+    have hlo : ∀ x ∈ l, -1 ≤ x := fun x hx => le_trans hhead (headD_le_of_sorted l hs x hx)
+    have hhi : ∀ x ∈ l, x < (n : Int) := fun x hx => lt_of_le_of_lt (le_getLastD_of_sorted l hs x hx) hlast
+    obtain ⟨ent, ps, rfl, hps⟩ := documented_form_of_sorted l hs hlo
+    refine ⟨ent, ps, rfl, hps, ?_, ?_⟩
+    · intro q hq
+      have : (Int.ofNat q) ∈ natPlanes ent ps := by
+        unfold natPlanes castList; exact List.mem_append_right _ (List.mem_map.mpr ⟨q, hq, rfl⟩)
+      have := hhi _ this
+      simp only [Int.ofNat_eq_natCast] at this; omega
+    · cases ent
+      · right; intro h; subst h; simp [natPlanes, castList] at hne
+      · left; rfl
 
 /-! ### integer exit planes (`_validate_exit_planes` with an int) -/
 
@@ -344,9 +458,19 @@ theorem thickness_axis_eq_prefix_sums (thickness : List Rat) (ent : Bool) (ps : 
     simp only [exitThicknesses, natPlanes, if_true, List.cons_append, List.nil_append, List.mapM_cons, hlast, hm]
     simp [tEntrance, hmap, bind, Except.bind, pure, Except.pure]
 
+/-- the thickness axis has one value per exit plane -/
+theorem thickness_axis_length (thickness : List Rat) (ent : Bool) (ps : List Nat)
+    (hb : ∀ q ∈ ps, q < thickness.length) (hpos : 0 < thickness.length) (hne : ent = true ∨ ps ≠ []) :
+    ∃ vals, exitThicknesses (natPlanes ent ps) thickness = .ok vals ∧ vals.length = (natPlanes ent ps).length := by
+  refine ⟨_, thickness_axis_eq_prefix_sums thickness ent ps hb hpos hne, ?_⟩
+  rw [length_natPlanes]; cases ent <;> simp [startIndex, Nat.add_comm]
+
 /-! ### non-vacuity: the hypotheses of `exit_plane_result` are satisfiable, and the conclusion is the expected one on the
 free (history) instance: `exit_planes=2` on 5 slices gives planes `(-1, 1, 3, 4)` -/
 example : validateExitPlanes (.int 2) 5 = .ok (natPlanes true [1, 3, 4]) := by decide
+example : validateExitPlanes (.tuple [2, 0]) 3 = .error "value_error" := by decide
+example : validateExitPlanes (.tuple [0, 0, 2]) 3 = .error "value_error" := by decide
+example : validateExitPlanes (.tuple [-1, 0, 2]) 3 = .ok [-1, 0, 2] := by decide
 example : (multisliceAndDetect hstep hdetect [] ⟨false, natPlanes true [1, 3, 4], 5, [[10, 11, 12, 13, 14]]⟩).toOption.bind
     (fun o => o.get [2]) = some [10, 11, 12, 13] := by decide
 example : [1, 3, 4].Pairwise (· < ·) ∧ (∀ q ∈ [1, 3, 4], q < [10, 11, 12, 13, 14].length) := by decide
